@@ -346,6 +346,12 @@ func GenEngineScript(r *Rng, o EngineGenOpts, hist map[string]int) []string {
 					add("bold %s %s %s", r.PickS("p", "p", "d", "g", "c"), engKeys[r.Intn(len(engKeys))], genEngVal(r, o, c, hist))
 					hist["op_stray_call_through_committed_batch_handle"]++
 				}
+				if o.Collide && r.Chance(1, 5) {
+					// two goroutines stage the same fresh key through one batch at the same moment (the batch has a lock
+					// of its own for that), then the key is deleted through the batch: nothing of it may be left
+					add("bracers %02x%02x %d @%d:%d", 0x72, j, 40+r.Intn(80), 1+r.Intn(12), r.Intn(999))
+					hist["op_batch_racing_puts_of_one_key"]++
+				}
 				y := r.Intn(10)
 				switch {
 				case y < 5:
